@@ -264,7 +264,8 @@ def PackAt.shift (o : Nat) (p : PackAt) : PackAt := { p with origin := o + p.ori
 def locStep (g : Bytes) (lp origin : Nat) (acc : List PackAt) (k : Nat) : Outcome (List PackAt) :=
   readBlock g (lp + k * 36) 32 >>= fun lb =>
   PackLocator.decode lb >>= fun l =>
-  pure (acc ++ [⟨l.uuid, origin + l.pos, l.size⟩])
+  if l.pos + l.size ≤ g.length then pure (acc ++ [⟨l.uuid, origin + l.pos, l.size⟩])
+  else .err .format
 
 /-- the locator loop of `containerPackOpen` -/
 def locLoop (g : Bytes) (lp origin : Nat) (ks : List Nat) (acc : List PackAt) : Outcome (List PackAt) :=
@@ -285,10 +286,11 @@ theorem locLoop_cons (g : Bytes) (lp origin : Nat) (k : Nat) (ks : List Nat) (ac
       (locStep g lp origin acc k >>= fun a => locLoop g lp origin ks a) := rfl
 
 theorem locStep_ok (g : Bytes) (lp origin : Nat) (acc : List PackAt) (k : Nat) (l : PackLocator)
-    (lb : Bytes) (h1 : readBlock g (lp + k * 36) 32 = .ok lb) (h2 : PackLocator.decode lb = .ok l) :
+    (lb : Bytes) (h1 : readBlock g (lp + k * 36) 32 = .ok lb) (h2 : PackLocator.decode lb = .ok l)
+    (h3 : l.pos + l.size ≤ g.length) :
     locStep g lp origin acc k = .ok (acc ++ [⟨l.uuid, origin + l.pos, l.size⟩]) := by
   unfold locStep
-  rw [h1, Outcome.ok_bind_eq, h2, Outcome.ok_bind_eq]
+  rw [h1, Outcome.ok_bind_eq, h2, Outcome.ok_bind_eq, if_pos h3]
   rfl
 
 /-! ### 6a. a container pack is read the same wherever it sits in a file -/
@@ -310,8 +312,12 @@ theorem locStep_shift (g : Bytes) (lp o : Nat) (acc : List PackAt) (k : Nat) :
     cases d with
     | ok l =>
       rw [Outcome.ok_bind_eq, Outcome.ok_bind_eq]
-      show Outcome.ok _ = Outcome.ok _
-      simp [PackAt.shift]
+      by_cases hb : l.pos + l.size ≤ g.length
+      · rw [if_pos hb, if_pos hb]
+        show Outcome.ok _ = Outcome.ok _
+        simp [PackAt.shift]
+      · rw [if_neg hb, if_neg hb]
+        rfl
     | err e => rfl
     | panic s => rfl
     | hang => rfl
@@ -424,7 +430,10 @@ theorem locTable_length (locs : List PackLocator) (h : ∀ l ∈ locs, l.uuid.le
 
 theorem cpwHeader_WF (uuid : Bytes) (packs : List (Bytes × Bytes)) (hu : uuid.length = 16)
     (hs : cpwCheckPos packs + 5 + 64 < 2 ^ 64) : (cpwHeader uuid packs).WF := by
-  refine ⟨rfl, hu, by decide, by decide, by decide, hs, ?_⟩
+  refine ⟨rfl, hu, ?_, ?_, ?_, hs, ?_⟩
+  · show Consts.versionMajor < 256; decide
+  · show Consts.versionMinor < 256; decide
+  · show 0 < 256; decide
   show cpwCheckPos packs < 2 ^ 64
   omega
 
@@ -447,5 +456,305 @@ theorem containerPackWrite_length_packSize (uuid freeData : Bytes) (packs : List
     (hu : uuid.length = 16) (hf : freeData.length = 24) (hpu : ∀ p ∈ packs, p.1.length = 16) :
     (containerPackWrite uuid freeData packs).length = (cpwHeader uuid packs).packSize :=
   containerPackWrite_length uuid freeData packs hu hf hpu
+
+/-! ### 4. reading back -/
+
+theorem readBlock_block' (pre d post : Bytes) :
+    readBlock (pre ++ (block d ++ post)) pre.length d.length = .ok d := by
+  rw [← List.append_assoc]
+  exact readBlock_block pre d post
+
+theorem readBlock_block_head (d post : Bytes) : readBlock (block d ++ post) 0 d.length = .ok d := by
+  have := readBlock_block [] d post
+  simpa only [List.nil_append, List.length_nil] using this
+
+/-- header read-back: a header block at offset 0 is accepted by `openHeader` -/
+theorem openHeader_block (h : PackHeader) (post : Bytes) (hw : h.WF)
+    (hv : h.major = Consts.versionGateMajor ∧ h.minor = Consts.versionGateMinor) :
+    openHeader (block h.encode ++ post) h.kind = .ok h := by
+  have hr := readBlock_block_head h.encode post
+  rw [PackHeader.encode_length h hw] at hr
+  unfold openHeader
+  rw [hr, Outcome.ok_bind_eq, PackHeader.decode_encode h hw hv, Outcome.ok_bind_eq, if_pos rfl]
+
+/-- locator read-back: the loop over a locator table placed at `A.length` returns the locators -/
+theorem locLoop_table (A Z : Bytes) (origin : Nat) (rest : List PackLocator) :
+    ∀ (done : List PackLocator) (acc : List PackAt),
+      (∀ l ∈ done, l.uuid.length = 16) →
+      (∀ l ∈ rest, l.uuid.length = 16 ∧ l.size < 2 ^ 64 ∧ l.pos < 2 ^ 64 ∧ l.pos + l.size ≤ A.length) →
+      locLoop (A ++ (locTable (done ++ rest) ++ Z)) A.length origin
+        (List.range' done.length rest.length) acc =
+      .ok (acc ++ rest.map (fun l => ⟨l.uuid, origin + l.pos, l.size⟩)) := by
+  induction rest with
+  | nil =>
+    intro done acc _ _
+    simp [locLoop_nil]
+  | cons l rest ih =>
+    intro done acc hd hr
+    obtain ⟨hl1, hl2, hl3, hl4⟩ := hr l (List.mem_cons_self ..)
+    have hrb : readBlock (A ++ (locTable (done ++ l :: rest) ++ Z)) (A.length + done.length * 36) 32 =
+        .ok l.encode := by
+      have e : A ++ (locTable (done ++ l :: rest) ++ Z) =
+          (A ++ locTable done) ++ (block l.encode ++ (locTable rest ++ Z)) := by
+        rw [locTable_append, locTable_cons]
+        simp only [List.append_assoc]
+      have := readBlock_block' (A ++ locTable done) l.encode (locTable rest ++ Z)
+      rw [List.length_append, locTable_length done hd, PackLocator.encode_length l hl1] at this
+      rw [e]
+      exact this
+    have hstep := locStep_ok _ A.length origin acc done.length l l.encode hrb
+      (PackLocator.decode_encode l hl1 hl2 hl3) (by rw [List.length_append]; omega)
+    rw [List.length_cons, List.range'_succ, locLoop_cons, hstep, Outcome.ok_bind_eq]
+    have hd' : ∀ x ∈ done ++ [l], x.uuid.length = 16 := by
+      intro x hx
+      rcases List.mem_append.mp hx with hx | hx
+      · exact hd x hx
+      · rw [List.mem_singleton.mp hx]; exact hl1
+    have ih' := ih (done ++ [l]) (acc ++ [⟨l.uuid, origin + l.pos, l.size⟩]) hd'
+      (fun x hx => hr x (List.mem_cons_of_mem _ hx))
+    rw [List.append_assoc, List.singleton_append, List.length_append, List.length_singleton] at ih'
+    rw [ih']
+    simp
+
+theorem layoutLocs_uuid_length (off : Nat) (packs : List (Bytes × Bytes))
+    (hpu : ∀ p ∈ packs, p.1.length = 16) : ∀ l ∈ layoutLocs off packs, l.uuid.length = 16 := by
+  intro l hl
+  have : l.uuid ∈ (layoutLocs off packs).map (·.uuid) := List.mem_map.mpr ⟨l, hl, rfl⟩
+  rw [layoutLocs_uuids] at this
+  obtain ⟨p, hp, hpl⟩ := List.mem_map.mp this
+  rw [← hpl]
+  exact hpu p hp
+
+theorem containerPackOpen_write (uuid freeData : Bytes) (packs : List (Bytes × Bytes))
+    (hu : uuid.length = 16) (hf : freeData.length = 24) (hpu : ∀ p ∈ packs, p.1.length = 16)
+    (hn : packs.length < 2 ^ 16) (hl : (containerPackWrite uuid freeData packs).length < 2 ^ 64) :
+    containerPackOpen (containerPackWrite uuid freeData packs) 0
+        (containerPackWrite uuid freeData packs).length =
+      .ok ((concatLayout packs).2.map (fun l => ⟨l.uuid, l.pos, l.size⟩)) := by
+  have hlen := containerPackWrite_length uuid freeData packs hu hf hpu
+  have hWF := cpwHeader_WF uuid packs hu (hlen ▸ hl)
+  have hul := layoutLocs_uuid_length 0 packs hpu
+  have htl := locTable_length _ hul
+  have hcp : cpwCheckPos packs = 128 + (cpwBody packs).length + (layoutLocs 0 packs).length * 36 := by
+    rw [cpwCheckPos, htl]
+  rw [containerPackOpen_eq, slice_all, concatLayout_eq]
+  rw [containerPackWrite_eq]
+  have hoh := openHeader_block (cpwHeader uuid packs) (block (cpwCH freeData packs).encode ++ (cpwBody packs ++
+        (locTable (layoutLocs 0 packs) ++ (block CheckInfo.none.encode ++
+          (block (cpwHeader uuid packs).encode).reverse)))) hWF ⟨rfl, rfl⟩
+  rw [show (cpwHeader uuid packs).kind = PackKind.container from rfl] at hoh
+  rw [hoh, Outcome.ok_bind_eq]
+  have hcb := readBlock_block' (block (cpwHeader uuid packs).encode) (cpwCH freeData packs).encode
+    (cpwBody packs ++ (locTable (layoutLocs 0 packs) ++ (block CheckInfo.none.encode ++
+          (block (cpwHeader uuid packs).encode).reverse)))
+  rw [block_length, cpwHeader_encode_length uuid packs hu,
+    ContainerHeader.encode_length (cpwCH freeData packs) hf] at hcb
+  rw [hcb, Outcome.ok_bind_eq]
+  have hch : ContainerHeader.decode (cpwCH freeData packs).encode = .ok (cpwCH freeData packs) := by
+    apply ContainerHeader.decode_encode _ _ hn hf
+    show 128 + (cpwBody packs).length < 2 ^ 64
+    omega
+  rw [hch, Outcome.ok_bind_eq]
+  show locLoop _ (128 + (cpwBody packs).length) 0 (List.range packs.length) [] = _
+  have e : block (cpwHeader uuid packs).encode ++ (block (cpwCH freeData packs).encode ++ (cpwBody packs ++
+        (locTable (layoutLocs 0 packs) ++ (block CheckInfo.none.encode ++
+          (block (cpwHeader uuid packs).encode).reverse)))) =
+      (block (cpwHeader uuid packs).encode ++ (block (cpwCH freeData packs).encode ++ cpwBody packs)) ++
+        (locTable ([] ++ layoutLocs 0 packs) ++ (block CheckInfo.none.encode ++
+          (block (cpwHeader uuid packs).encode).reverse)) := by
+    simp only [List.append_assoc, List.nil_append]
+  have hA : (block (cpwHeader uuid packs).encode ++ (block (cpwCH freeData packs).encode ++ cpwBody packs)).length =
+      128 + (cpwBody packs).length := by
+    simp only [List.length_append, block_length, cpwHeader_encode_length uuid packs hu,
+      ContainerHeader.encode_length (cpwCH freeData packs) hf]
+    omega
+  have hbound : ∀ l ∈ layoutLocs 0 packs, l.uuid.length = 16 ∧ l.size < 2 ^ 64 ∧ l.pos < 2 ^ 64 ∧
+      l.pos + l.size ≤ (block (cpwHeader uuid packs).encode ++
+        (block (cpwCH freeData packs).encode ++ cpwBody packs)).length := by
+    intro l hl'
+    have hb := layoutLocs_bound 0 packs l hl'
+    have : ((packs.map (·.2)).flatten).length = (cpwBody packs).length := rfl
+    refine ⟨hul l hl', ?_, ?_, ?_⟩ <;> omega
+  have := locLoop_table (block (cpwHeader uuid packs).encode ++ (block (cpwCH freeData packs).encode ++ cpwBody packs))
+    (block CheckInfo.none.encode ++ (block (cpwHeader uuid packs).encode).reverse) 0
+    (layoutLocs 0 packs) [] [] (by simp) hbound
+  rw [hA, List.length_nil, layoutLocs_length, ← List.range_eq_range'] at this
+  rw [e, this]
+  simp
+
+/-! ### 5. blind open, header at offset 0 -/
+
+theorem blindOpen_head (f hd : Bytes) (h : PackHeader) (hlen : 64 ≤ f.length)
+    (ht : PackHeader.decode (f.take 60) = .ok h) (hr : readBlock f 0 60 = .ok hd)
+    (hdec : PackHeader.decode hd = .ok h) (hk : h.kind = .container) (hsz : h.packSize ≤ f.length) :
+    blindOpen f = containerPackOpen f 0 h.packSize := by
+  have hsz' : 0 + h.packSize ≤ f.length := by omega
+  unfold blindOpen
+  rw [if_neg (by omega)]
+  simp only [ht, hr, Outcome.ok_bind_eq, hdec, hk, if_true, if_pos hsz']
+
+theorem containerPackWrite_take60 (uuid freeData : Bytes) (packs : List (Bytes × Bytes))
+    (hu : uuid.length = 16) :
+    (containerPackWrite uuid freeData packs).take 60 = (cpwHeader uuid packs).encode := by
+  rw [containerPackWrite_eq, block, List.append_assoc]
+  exact List.take_left' (cpwHeader_encode_length uuid packs hu)
+
+theorem blindOpen_write (uuid freeData : Bytes) (packs : List (Bytes × Bytes))
+    (hu : uuid.length = 16) (hf : freeData.length = 24) (hpu : ∀ p ∈ packs, p.1.length = 16)
+    (hl : (containerPackWrite uuid freeData packs).length < 2 ^ 64) :
+    blindOpen (containerPackWrite uuid freeData packs) =
+      containerPackOpen (containerPackWrite uuid freeData packs) 0
+        (containerPackWrite uuid freeData packs).length := by
+  have hlen := containerPackWrite_length uuid freeData packs hu hf hpu
+  have hWF := cpwHeader_WF uuid packs hu (hlen ▸ hl)
+  have hdec := PackHeader.decode_encode (cpwHeader uuid packs) hWF ⟨rfl, rfl⟩
+  have hr : readBlock (containerPackWrite uuid freeData packs) 0 60 = .ok (cpwHeader uuid packs).encode := by
+    rw [containerPackWrite_eq]
+    have := readBlock_block_head (cpwHeader uuid packs).encode (block (cpwCH freeData packs).encode ++
+      (cpwBody packs ++ (locTable (layoutLocs 0 packs) ++ (block CheckInfo.none.encode ++
+        (block (cpwHeader uuid packs).encode).reverse))))
+    rw [cpwHeader_encode_length uuid packs hu] at this
+    exact this
+  have := blindOpen_head (containerPackWrite uuid freeData packs) _ (cpwHeader uuid packs)
+    (by omega) (by rw [containerPackWrite_take60 uuid freeData packs hu]; exact hdec) hr hdec rfl
+    (by show cpwCheckPos packs + 5 + 64 ≤ _; omega)
+  rw [this, hlen]
+  rfl
+
+/-! ### 6. blind open through the mirrored tail -/
+
+theorem blindOpen_tail (f : Bytes) (h : PackHeader) (hlen : 64 ≤ f.length)
+    (hv : PackHeader.decode (f.take 60) ≠ .err .version)
+    (hbad : ∀ h', (do let hd ← readBlock f 0 60; PackHeader.decode hd : Outcome PackHeader) ≠ .ok h')
+    (htail : (slice f (f.length - 64) 64).reverse = block h.encode) (hw : h.WF)
+    (hver : h.major = Consts.versionGateMajor ∧ h.minor = Consts.versionGateMinor)
+    (hk : h.kind = .container) (hsz : h.packSize ≤ f.length) :
+    blindOpen f = containerPackOpen f (f.length - h.packSize) h.packSize := by
+  have hr : readBlock (block h.encode) 0 60 = .ok h.encode := by
+    have := readBlock_block_head h.encode []
+    rw [List.append_nil, PackHeader.encode_length h hw] at this
+    exact this
+  have hdec := PackHeader.decode_encode h hw hver
+  unfold blindOpen
+  rw [if_neg (by omega)]
+  dsimp only
+  split
+  · rename_i heq
+    exact absurd heq hv
+  · generalize (do let hd ← readBlock f 0 60; PackHeader.decode hd : Outcome PackHeader) = x at hbad ⊢
+    have hns : ¬ f.length < h.packSize := Nat.not_lt.mpr hsz
+    have h64 : ¬ f.length < 64 := by omega
+    have hin : f.length - h.packSize + h.packSize ≤ f.length := by omega
+    cases x with
+    | ok h' => exact absurd rfl (hbad h')
+    | err e => simp only [if_neg h64, htail, hr, Outcome.ok_bind_eq, hdec, if_neg hns, if_pos hin, hk, if_true]
+    | panic s => simp only [if_neg h64, htail, hr, Outcome.ok_bind_eq, hdec, if_neg hns, if_pos hin, hk, if_true]
+    | hang => simp only [if_neg h64, htail, hr, Outcome.ok_bind_eq, hdec, if_neg hns, if_pos hin, hk, if_true]
+    | fault => simp only [if_neg h64, htail, hr, Outcome.ok_bind_eq, hdec, if_neg hns, if_pos hin, hk, if_true]
+
+/-- the mirrored tail of a written container pack, seen from the end of any file it ends -/
+theorem containerPackWrite_tail (uuid freeData : Bytes) (packs : List (Bytes × Bytes)) (pre : Bytes)
+    (hu : uuid.length = 16) :
+    (slice (pre ++ containerPackWrite uuid freeData packs)
+      ((pre ++ containerPackWrite uuid freeData packs).length - 64) 64).reverse =
+      block (cpwHeader uuid packs).encode := by
+  rw [containerPackWrite_eq]
+  generalize hX : block (cpwCH freeData packs).encode = c
+  generalize hT : block (cpwHeader uuid packs).encode = hb
+  have hbl : hb.length = 64 := by
+    rw [← hT, block_length, cpwHeader_encode_length uuid packs hu]
+  have e : pre ++ (hb ++ (c ++ (cpwBody packs ++ (locTable (layoutLocs 0 packs) ++
+      (block CheckInfo.none.encode ++ hb.reverse))))) =
+      (pre ++ (hb ++ (c ++ (cpwBody packs ++ (locTable (layoutLocs 0 packs) ++
+      block CheckInfo.none.encode))))) ++ hb.reverse := by
+    simp only [List.append_assoc]
+  rw [e]
+  generalize (pre ++ (hb ++ (c ++ (cpwBody packs ++ (locTable (layoutLocs 0 packs) ++
+      block CheckInfo.none.encode))))) = Y
+  have := slice_prefix Y hb.reverse
+  rw [List.length_reverse, hbl] at this
+  rw [List.length_append, List.length_reverse, hbl, Nat.add_sub_cancel, this, List.reverse_reverse]
+
+theorem blindOpen_prefix (uuid freeData : Bytes) (packs : List (Bytes × Bytes)) (pre : Bytes)
+    (hu : uuid.length = 16) (hf : freeData.length = 24) (hpu : ∀ p ∈ packs, p.1.length = 16)
+    (hl : (containerPackWrite uuid freeData packs).length < 2 ^ 64)
+    (hv : PackHeader.decode ((pre ++ containerPackWrite uuid freeData packs).take 60) ≠ .err .version)
+    (hbad : ∀ h, (do let hd ← readBlock (pre ++ containerPackWrite uuid freeData packs) 0 60
+                     PackHeader.decode hd : Outcome PackHeader) ≠ .ok h) :
+    blindOpen (pre ++ containerPackWrite uuid freeData packs) =
+      containerPackOpen (pre ++ containerPackWrite uuid freeData packs) pre.length
+        (containerPackWrite uuid freeData packs).length := by
+  have hlen := containerPackWrite_length uuid freeData packs hu hf hpu
+  have hWF := cpwHeader_WF uuid packs hu (hlen ▸ hl)
+  have hps : (cpwHeader uuid packs).packSize = (containerPackWrite uuid freeData packs).length :=
+    hlen.symm
+  have hfl : (pre ++ containerPackWrite uuid freeData packs).length =
+      pre.length + (containerPackWrite uuid freeData packs).length := List.length_append
+  have := blindOpen_tail (pre ++ containerPackWrite uuid freeData packs) (cpwHeader uuid packs)
+    (by omega) hv hbad (containerPackWrite_tail uuid freeData packs pre hu) hWF ⟨rfl, rfl⟩ rfl
+    (by omega)
+  rw [this, hps, hfl, Nat.add_sub_cancel]
+
+/-- items 4 + 6 combined: a container pack appended to any file that does not itself start with a
+    valid header is found, with every pack at its place -/
+theorem blindOpen_prefix_write (uuid freeData : Bytes) (packs : List (Bytes × Bytes)) (pre : Bytes)
+    (hu : uuid.length = 16) (hf : freeData.length = 24) (hpu : ∀ p ∈ packs, p.1.length = 16)
+    (hn : packs.length < 2 ^ 16) (hl : (containerPackWrite uuid freeData packs).length < 2 ^ 64)
+    (hv : PackHeader.decode ((pre ++ containerPackWrite uuid freeData packs).take 60) ≠ .err .version)
+    (hbad : ∀ h, (do let hd ← readBlock (pre ++ containerPackWrite uuid freeData packs) 0 60
+                     PackHeader.decode hd : Outcome PackHeader) ≠ .ok h) :
+    blindOpen (pre ++ containerPackWrite uuid freeData packs) =
+      .ok ((concatLayout packs).2.map (fun l => ⟨l.uuid, pre.length + l.pos, l.size⟩)) := by
+  rw [blindOpen_prefix uuid freeData packs pre hu hf hpu hl hv hbad,
+    containerPackOpen_shift pre _ _ (containerPackOpen_write uuid freeData packs hu hf hpu hn hl),
+    List.map_map]
+  rfl
+
+/-- items 4 + 5 combined -/
+theorem blindOpen_write_ok (uuid freeData : Bytes) (packs : List (Bytes × Bytes))
+    (hu : uuid.length = 16) (hf : freeData.length = 24) (hpu : ∀ p ∈ packs, p.1.length = 16)
+    (hn : packs.length < 2 ^ 16) (hl : (containerPackWrite uuid freeData packs).length < 2 ^ 64) :
+    blindOpen (containerPackWrite uuid freeData packs) =
+      .ok ((concatLayout packs).2.map (fun l => ⟨l.uuid, l.pos, l.size⟩)) := by
+  rw [blindOpen_write uuid freeData packs hu hf hpu hl,
+    containerPackOpen_write uuid freeData packs hu hf hpu hn hl]
+
+/-! ### the regions found hold the pack bytes -/
+
+theorem slice_append_inside (b c : Bytes) (off len : Nat) (h : off + len ≤ b.length) :
+    slice (b ++ c) off len = slice b off len := by
+  simp only [slice]
+  rw [List.drop_append_of_le_length (by omega), List.take_append_of_le_length (by simp; omega)]
+
+/-- the region a locator of the written file designates is the region of the body -/
+theorem containerPackWrite_region (uuid freeData : Bytes) (packs : List (Bytes × Bytes))
+    (hu : uuid.length = 16) (hf : freeData.length = 24) (l : PackLocator)
+    (hl : l ∈ (concatLayout packs).2) :
+    slice (containerPackWrite uuid freeData packs) l.pos l.size =
+      slice (concatLayout packs).1 (l.pos - 128) l.size := by
+  rw [concatLayout_eq] at hl ⊢
+  have hb := layoutLocs_bound 0 packs l hl
+  rw [containerPackWrite_eq, ← List.append_assoc]
+  have hA : (block (cpwHeader uuid packs).encode ++ block (cpwCH freeData packs).encode).length = 128 := by
+    rw [List.length_append, block_length, block_length, cpwHeader_encode_length uuid packs hu,
+      ContainerHeader.encode_length (cpwCH freeData packs) hf]
+  rw [slice_skip _ _ _ _ (by omega), hA]
+  exact slice_append_inside _ _ _ _ (by show _ ≤ ((packs.map (·.2)).flatten).length; omega)
+
+/-- looking a uuid up in the written file (by its locators) yields the pack's bytes -/
+theorem containerPackWrite_lookup (uuid freeData : Bytes) (packs : List (Bytes × Bytes))
+    (hu : uuid.length = 16) (hf : freeData.length = 24) (hn : (packs.map (·.1)).Nodup)
+    (u b : Bytes) (h : (u, b) ∈ packs) :
+    ((concatLayout packs).2.find? (fun l => l.uuid == u)).map
+      (fun l => slice (containerPackWrite uuid freeData packs) l.pos l.size) = some b := by
+  have hlk := concat_lookup packs hn u b h
+  unfold lookupPack at hlk
+  cases hfind : (concatLayout packs).2.find? (fun l => l.uuid == u) with
+  | none => rw [hfind] at hlk; simp at hlk
+  | some l =>
+    rw [hfind] at hlk
+    simp only [Option.map_some] at hlk ⊢
+    rw [containerPackWrite_region uuid freeData packs hu hf l (List.mem_of_find?_eq_some hfind)]
+    exact hlk
 
 end Jubako
